@@ -40,6 +40,11 @@ CHECKS = {
          "Every (batch layout per epoch, limit, before, until) for 2 epochs x <= 2-3 entries and 3 epochs x <= 1-3 entries, and every two-epoch history with slots x (limit, before, until), is checked on the transcriptions and executed on the real GsfaReaderMultiepoch over directories written by the real record writer; generated multi-epoch archives are indexed by the real `index gsfa` (batch size shrunk to 2) and every address is paged through the real handler with (limit, before, until) drawn from its history, each request repeated; TLC judges every result against Page / the slot window.",
          "`before` not in the history yields an empty page, `until` not in it is ignored; slot-window results judged for soundness (exactness belongs to C19); thorough tier adds the negative configurations (map-order assembly, missing `before` comparison).",
          "DESIGN.md section 7, C07", "gsfapaging"),
+ "C14": ("model_checking",
+         "TLC exhaustive check of DataFrames.tla (recursive collection over next links, sort by index, count and checksum checks under every single fault), which also enumerates the replay cases; real frames through tooling / storage.go / accum; TLC trace judge (Trace_DataFrames.tla)",
+         "Every (frame count <= 6 / 8, fan-out <= 3 / 4, single fault: drop, duplicate link, altered data incl. the embedded first frame, frame of another payload, renumbering) is checked on the model and replayed, plus seeded cases with 1..60 frames and fan-out 1..10, payloads 0..200 KiB, CRC64 / legacy FNV / no checksum, the chain on the metadata or the transaction-data side, through LoadDataFromDataFrames, getTransactionAndMetaFromNode, parseTransactionAndMetaFromNode and accum.ObjectsToTransactionsAndMetadata (shuffled object order); results are compared again after later reassemblies (aliasing); TLC judges each outcome.",
+         "Checksum idealised as injective in the model; legacy frames without checksum / total only have to reassemble un-faulted payloads.",
+         "DESIGN.md section 7, C14", "dataframes"),
  "C15": ("model_checking",
          "TLC exhaustive check of PlusCal Accum.tla (every CAR layout x reader/flusher interleaving); TLC-simulated layouts+schedules forced on the real ObjectAccumulator through a gated io.Reader and gated callback; TLC trace judge (Trace_Accum.tla)",
          "Every layout of <= 4 (quick) / 6 (thorough) sections over {flush kind, kept, ignored} x body lengths at a varint boundary, with every interleaving of reader and flusher and queue capacities 1-2, is explored exhaustively (prefix/complete/no-aliasing/termination); TLC-generated layouts and schedules are forced on the real accumulator, plus free-running real-scale runs (1 500 groups, > 5 000 children, slow / random consumers, GOMAXPROCS 1/2/16); delivered groups with offsets are judged by TLC against the true offsets measured by the CAR writer.",
@@ -82,6 +87,8 @@ CHECKS = {
          "DESIGN.md section 7, C06", "gsfa"),
 }
 ENGINES = [
+ {"name": "dataframes", "path": "spec/DataFrames.tla", "serves_properties": ["C14"],
+  "kind_free_text": "TLA+ DataFrames + Trace_DataFrames; Go harness/main/c14_test.go"},
  {"name": "sigexists", "path": "spec/SigExists.tla", "serves_properties": ["C05"],
   "kind_free_text": "TLA+ Util + SigExists + Trace_SigExists; Go harness/pkg/bucketteer/c05_test.go (child process per writer)"},
  {"name": "hashindex", "path": "spec/HashIndex.tla", "serves_properties": ["C04"],
